@@ -96,6 +96,9 @@ def run(rep, drv):
 		pmf = gen_pmf(rng)
 		D = len(pmf) - 1
 		h = F(rng.randint(1, 6), 2); b = F(rng.randint(2, 30), 2); K = F(rng.randint(1, 40), 2)
+		if rng.random() < .3:
+			K = F(rng.choice([1, 2, 4, 8]), 16)          # tiny fixed cost: the near base-stock regime (s = S - 1)
+			rep.count('zf:small-K')
 		case = {'pmf': frs(pmf), 'h': fr(h), 'b': fr(b), 'K': fr(K)}
 		rep.case('s_s_discrete_exact', case, nontrivial=True)
 		try:
